@@ -409,9 +409,9 @@ static void generate(Rng &rng, const Opts &o, std::vector<std::string> &lines) {
     }
     for (long k = 0; k < 4 * scale; ++k) { int np = (int)rng.range(1, W); long n = rng.range(4, 14); std::vector<Q> d(n); for (auto &v : d) v = Q::frac(rng.range(1, 8), 2); Line l; l << "mzero"; lp(l, rand_part(rng, n, np)); l << d << gen_vec(rng, n, true); lines.push_back(l.get()); }
     for (long w = 0; w < 4; ++w) { Line l; l << "mrtbad" << w; lines.push_back(l.get()); }
-    lines.push_back("msdd 0 0 0 1 2 2 2 2 0 1 1 -1 2 0 -1 1 1 2 1 1");            // fewer rows than 2 * deflation vectors
-    lines.push_back("mrtsolve 9 0 1 2 2 2 2 0 1 1 -1 2 0 -1 1 1 2 1 1");          // no such solver
-    lines.push_back("mrebuild 0 2 1 2 2 2 2 0 1 1 -1 2 0 -1 1 1 2 1 1");          // direct flag out of range
+    lines.push_back("msdd 0 0 0 1 1 1 1 1 0 2 1 1");                                            // fewer rows than 2 * deflation vectors
+    lines.push_back("mrtsolve 9 0 1 2 2 2 2 0 2 1 -1 2 0 -1 1 2 2 1 1");          // no such solver
+    lines.push_back("mrebuild 0 2 1 2 2 2 2 0 2 1 -1 2 0 -1 1 2 2 1 1");          // direct flag out of range
 }
 
 VH_MPI_MAIN(generate, execute)
